@@ -208,8 +208,137 @@ internal:
     snprintf(r->what, sizeof(r->what), "part K could not bring the client's stored session into shape %s", ksname[k->ks]);
 }
 
+/* ------------------------------------------------------------------ TLS 1.3: a client that offers an (external) PSK
+ * The attacker answers with ServerHello {suite, supported_versions 1.3, pre_shared_key selected_identity 0, NO key_share},
+ * EncryptedExtensions and Finished, all derived from an Early Secret and an (EC)DHE input of zeros - values it can know.
+ * k13 cases: client suite list x the suite the attacker selects.  A client must refuse every one of them (it holds the real
+ * PSK, whose Early Secret is not zero; and a suite whose hash is not the PSK's may not be selected with it, RFC 8446 4.2.11). */
+#include <openssl/hmac.h>
+#include <openssl/evp.h>
+typedef struct { int csuite, asuite; } k13case_t;
+static void k13_extract(int hl, const unsigned char *salt, const unsigned char *ikm, unsigned char *out)
+{
+    unsigned int l = 0;
+    HMAC(hl == 48 ? EVP_sha384() : EVP_sha256(), salt, hl, ikm, (size_t) hl, out, &l);
+}
+static void k13_run_case(void *ctx, mx_result_t *r)
+{
+    k13case_t *k = ctx;
+    static world_t w;
+    wcfg_t c;
+    unsigned char ch[2048], sh[200], rec[600], zero[64], empty_h[64], d1[64], hs[64], ms[64], shs[64], sap[64], th[64], vd[64], fin[80], inner[120];
+    static const unsigned char ee[6] = { 8, 0, 0, 2, 0, 0 };
+    int chl, off = 0, i, hl = k->asuite == TLS_AES_256_GCM_SHA384 ? 48 : 32, rl, cidl, complete;
+    buf_t tr, none;
+    tk13_keys_t hk, ak;
+    wire_t *q;
+    r->nontrivial = 1;
+    snprintf(r->outcome, sizeof(r->outcome), "partK13:client-suite=%04x:attacker-selects=%04x", k->csuite, k->asuite);
+    memset(&c, 0, sizeof(c));
+    c.ver = V_TLS13; c.kx = KX_13_PSK; c.suite = (uint16_t) k->csuite;
+    if (world_init(&w, &c) < 0)
+    {
+        r->nontrivial = 0;
+        snprintf(r->outcome + strlen(r->outcome), sizeof(r->outcome) - strlen(r->outcome), ":client-cannot-be-configured");
+        return;
+    }
+    world_collect(&w, 0);
+    q = &w.wire[0];
+    if (q->n < 1 || q->r[q->head].p[0] != 22 || q->r[q->head].len > (int) sizeof(ch))
+    {
+        goto internal;
+    }
+    chl = q->r[q->head].len - 5;
+    memcpy(ch, q->r[q->head].p + 5, (size_t) chl);
+    world_wire_clear(&w, 0);
+    cidl = ch[38];
+    sh[off++] = 2; off += 3;
+    sh[off++] = 3; sh[off++] = 3;
+    for (i = 0; i < 32; i++) sh[off++] = (unsigned char) (0x50 + i);
+    sh[off++] = (unsigned char) cidl; memcpy(sh + off, ch + 39, (size_t) cidl); off += cidl;
+    sh[off++] = (unsigned char) (k->asuite >> 8); sh[off++] = (unsigned char) k->asuite;
+    sh[off++] = 0;
+    sh[off++] = 0; sh[off++] = 12;
+    sh[off++] = 0; sh[off++] = 43; sh[off++] = 0; sh[off++] = 2; sh[off++] = 3; sh[off++] = 4;
+    sh[off++] = 0; sh[off++] = 41; sh[off++] = 0; sh[off++] = 2; sh[off++] = 0; sh[off++] = 0;
+    sh[1] = 0; sh[2] = 0; sh[3] = (unsigned char) (off - 4);
+    memset(zero, 0, sizeof(zero));
+    buf_init(&none); buf_init(&tr);
+    tk_transcript_hash(hl, &none, empty_h);
+    tk_hkdf_expand_label(hl, zero, "derived", empty_h, hl, d1, hl);
+    k13_extract(hl, d1, zero, hs);
+    buf_add(&tr, ch, (size_t) chl); buf_add(&tr, sh, (size_t) off);
+    tk_transcript_hash(hl, &tr, th);
+    tk_hkdf_expand_label(hl, hs, "s hs traffic", th, hl, shs, hl);
+    if (tk13_keys_from_secret(&hk, (uint16_t) k->asuite, shs, hl) < 0)
+    {
+        goto internal;
+    }
+    buf_add(&tr, ee, sizeof(ee));
+    tk_transcript_hash(hl, &tr, th);
+    tk13_finished(&hk, th, vd);
+    fin[0] = 20; fin[1] = 0; fin[2] = 0; fin[3] = (unsigned char) hl;
+    memcpy(fin + 4, vd, (size_t) hl);
+    buf_add(&tr, fin, (size_t) (4 + hl));
+    tk_hkdf_expand_label(hl, hs, "derived", empty_h, hl, d1, hl);
+    k13_extract(hl, d1, zero, ms);
+    tk_transcript_hash(hl, &tr, th);
+    tk_hkdf_expand_label(hl, ms, "s ap traffic", th, hl, sap, hl);
+    if (tk13_keys_from_secret(&ak, (uint16_t) k->asuite, sap, hl) < 0)
+    {
+        goto internal;
+    }
+    rec[0] = 22; rec[1] = 3; rec[2] = 3; rec[3] = 0; rec[4] = (unsigned char) off;
+    memcpy(rec + 5, sh, (size_t) off);
+    world_feed(&w, 0, rec, 5 + off);
+    memcpy(inner, ee, sizeof(ee));
+    memcpy(inner + sizeof(ee), fin, (size_t) (4 + hl));
+    hk.seq = 0;
+    rl = tk13_seal(&hk, 22, inner, (int) sizeof(ee) + 4 + hl, rec);
+    if (rl > 0 && w.s[0].err_rc >= 0 && w.s[0].ssl->err == SSL_ALERT_NONE)
+    {
+        world_feed(&w, 0, rec, rl);
+    }
+    ak.seq = 0;
+    rl = tk13_seal(&ak, 23, (const unsigned char *) "INJECTED-WITHOUT-ANY-KEY", 24, rec);
+    if (rl > 0 && w.s[0].err_rc >= 0 && w.s[0].ssl->err == SSL_ALERT_NONE)
+    {
+        world_feed(&w, 0, rec, rl);
+    }
+    buf_free(&tr); buf_free(&none);
+    complete = world_is_complete(&w, 0);
+    r->transitions = 3;
+    r->trace_hash = world_trace_hash(&w);
+    snprintf(r->outcome + strlen(r->outcome), sizeof(r->outcome) - strlen(r->outcome), ":%s:alert%d", complete ? "COMPLETE" : "refused", w.s[0].ssl->err);
+    if (complete || w.s[0].n_deliveries > 0)
+    {
+        r->violation = 1;
+        snprintf(r->key, sizeof(r->key), "partK13|tls13|client-suite=%04x|attacker-selects=%04x|keyless-attacker-completed-the-handshake", k->csuite, k->asuite);
+        snprintf(r->what, sizeof(r->what), "TLS 1.3 client offering its 32-byte external PSK with suite list {%04x}: ServerHello (suite %04x, selected_identity 0, no key_share), EncryptedExtensions, Finished and an application record derived from an all-zero Early Secret and (EC)DHE input were accepted: complete %d, delivered %d",
+            k->csuite, k->asuite, complete, w.s[0].n_deliveries);
+    }
+    return;
+internal:
+    r->violation = 2;
+    snprintf(r->key, sizeof(r->key), "internal|partK13|setup|%04x", k->csuite);
+    snprintf(r->what, sizeof(r->what), "part K13 could not obtain the ClientHello / derive keys");
+}
+
 static void k_run_group(void)
 {
+    {
+        static const int suites[3] = { TLS_AES_128_GCM_SHA256, TLS_AES_256_GCM_SHA384, TLS_CHACHA20_POLY1305_SHA256 };
+        k13case_t k3;
+        int a, b;
+        for (a = 0; a < 3; a++)
+            for (b = 0; b < 3; b++)
+            {
+                char desc[200];
+                k3.csuite = suites[a]; k3.asuite = suites[b];
+                snprintf(desc, sizeof(desc), "K13;c=%d;a=%d (part K13: TLS 1.3 PSK client with suite %04x; keyless attacker selects %04x)", k3.csuite, k3.asuite, k3.csuite, k3.asuite);
+                mx_fork_case(desc, k13_run_case, &k3);
+            }
+    }
     kcase_t k;
     for (k.ks = 0; k.ks < KS_N; k.ks++)
         for (k.ki = 0; k.ki < KI_N; k.ki++)
